@@ -1,0 +1,21 @@
+//go:build verif
+
+package pppoe
+
+import "net"
+
+// PoolViewForVerif returns copies of the client pool's free list (in order) and of its allocation table
+// (RADIUS session id -> address).
+func (s *Server) PoolViewForVerif() ([]net.IP, map[string]net.IP) {
+	if s.clientIPPool == nil {
+		return nil, nil
+	}
+	p := s.clientIPPool
+	avail := make([]net.IP, len(p.available))
+	copy(avail, p.available)
+	alloc := make(map[string]net.IP, len(p.allocated))
+	for k, v := range p.allocated {
+		alloc[k] = v
+	}
+	return avail, alloc
+}
